@@ -262,10 +262,11 @@ def check(pid, tier, replay=None):
         else:
             replay_behaviours = {}
     stats, violations = run_pipeline(tier, replay_behaviours)
-    mine = []
+    mine, seen = [], set()
     for (p, key, what, payload) in violations:
-        if p != pid:
+        if p != pid or key in seen:
             continue
+        seen.add(key)
         path = core.write_replay(pid, key, payload)
         mine.append(core.Violation(pid, key, what, path))
     nbeh = sum(stats["behaviours"].values())
